@@ -72,6 +72,13 @@ def random_grammar(rng, names="plain", payload="usize", derive=True, max_nt=4, m
     else:
         pool = rng.sample(INTERNAL_NAMES, n_nt + n_t + 1)
         nts, ts, tenum = pool[:n_nt], pool[n_nt:n_nt + n_t], pool[-1]
+        if n_t >= 2 and rng.random() < 0.2:
+            # two terminals whose names have the same snake_case form (the `try_into_<snake>_<index>` methods differ
+            # in the index only)
+            a, b = rng.choice([("AB", "A_b"), ("XY", "X_y"), ("KeyWord", "Key_word"), ("AbC", "Ab_c"), ("X1Y", "X1_y")])
+            if not ({a, b} & (set(nts) | {tenum})):
+                ts = [a, b] + [t for t in ts if t not in (a, b)][: n_t - 2]
+                rng.shuffle(ts)
     syms = [sym_n(x) for x in nts] + [sym_t(x) for x in ts] + [sym_t(x) for x in ts]
     attrs = ["#[derive(Debug)]"] if derive else []
     items = [{"kind": "start", "name": nts[0]}]
